@@ -268,6 +268,10 @@ def _one(args):
             cls = "noreply"
         else:
             cls = "other:%s" % r.status
+    # an adapted message whose ICAP reply lacks only the last-chunk: whether the receiver sees all Content-Length bytes
+    # before the abort is a race; canonicalised to the aborted class (the oracle accepts both)
+    if a and a.get("cut") and a["cut"][0] == "nolast" and a["cl"] and cls == "adapted":
+        cls = "error" if (s["dir"] == "req" and not a.get("satisfy")) else "trunc-adapted"
     recs = stub.records(rid)
     if len(recs) != 1:
         return "%s icap-transactions=%d" % (cls, len(recs))
@@ -310,8 +314,6 @@ def oracle(s, obs):
         return ("oracle:mixture", "the delivered message is neither the virgin nor the adapted message nor a prefix of one of them")
     if cls in ("noreply",) or cls.startswith("other") or len(w) != 4:
         return ("oracle:no-transaction", "no classifiable outcome: " + obs)
-    if cls == "trunc-virgin":
-        return ("oracle:virgin-truncated", "the virgin message was delivered incomplete although the origin sent it whole")
     f = dict(x.split("=") for x in w[1:])
     ieof, a204, haspv = f["ieof"] == "1", f["a204"] == "1", f["pv"] != "-"
     first, then = s["first"], s.get("then")
@@ -329,10 +331,13 @@ def oracle(s, obs):
         if legal and cls != "virgin":
             return ("oracle:204-not-virgin", "the service answered 204 (%s) but the client did not get the virgin message: %s"
                     % ("after 100 Continue" if after100 else "inside preview" if haspv else "Allow: 204", cls))
-        if not legal:
-            k = "illegal-204"
-        else:
+        if legal:
             return None
+        k = "illegal-204"                              # a 204 the service was not entitled to send: a protocol failure
+        if cls == "trunc-virgin":
+            return None                                # answered with a visibly incomplete virgin message
+    if cls == "trunc-virgin":
+        return ("oracle:virgin-truncated", "the virgin message was delivered incomplete although the origin sent it whole")
     if k == "200" and not dec.get("cut"):
         if cls != "adapted":
             return ("oracle:200-not-adapted", "the service returned a complete adapted message but the client got: " + cls)
@@ -350,16 +355,14 @@ def oracle(s, obs):
         if cls != "virgin":
             if k == "status":
                 why = "icap-status"
+            elif k == "200":
+                why = "after-200-head"
             elif after100 and not a204:
                 why = "after-100-unbuffered"
-            elif not haspv and not a204 and s["vlen"] >= CAP:
-                why = "body-not-retained"
-            elif not a204 and not s["vknown"] and not haspv:
+            elif not haspv and not a204:
                 why = "body-not-retained"
             elif k == "reset" and s["dir"] == "resp":
                 why = "io-stop"
-            elif k == "illegal-204":
-                why = "illegal-204"
             else:
                 why = k
             return ("oracle:bypass-not-honoured:" + why,
